@@ -69,6 +69,19 @@ Theorem C22_sample_generation_counts :
       s_dgc smp = i_dgc i /\ s_nwgc smp = i_nwgc i.
 Proof. exact add_change_stored_counts. Qed.
 
+(* ... and they are the generation of the DDS automaton in which the sample was written *)
+Theorem C22_sample_generation_counts_spec :
+  forall q ops1 w h k t d rts,
+    let ops := ops1 ++ [OpAdd w h k t d rts] in
+    let xs := snd (run_obs (init_reader q) ops) in
+    let evs := events true h ops xs in
+    all_stored xs -> sole_unregister evs ->
+    snd (add_change (run q ops1) w d k h t rts) = Added ->
+    exists smp, In smp (r_samples (run q ops)) /\ s_inst smp = h /\ s_data smp = d /\ s_writer smp = w /\
+                s_dgc smp = l_dgc (fold_left spec_step evs l_new) /\
+                s_nwgc smp = l_nwgc (fold_left spec_step evs l_new).
+Proof. exact stored_sample_counts_spec. Qed.
+
 (* what a SampleInfo shows: instance and view state of the instance before the access, the
    generation counts of the sample *)
 Theorem C22_sample_info :
@@ -137,6 +150,7 @@ Print Assumptions C22_lifecycle_refines_spec_single_writer.
 Print Assumptions C22_lifecycle_received.
 Print Assumptions C22_update_state_idempotent.
 Print Assumptions C22_sample_generation_counts.
+Print Assumptions C22_sample_generation_counts_spec.
 Print Assumptions C22_sample_info.
 Print Assumptions C22_view_new_exactly_first_access_or_rebirth.
 Print Assumptions C22_class1_nowriters_multiwriter_witness.
